@@ -211,7 +211,7 @@ def _run_impl(case: dict) -> dict:
                     return False         # the server reader is inside a listener: later messages just queue up
                 if name == 'addrReply':
                     return bool(listed(GetPeerAddress.Response)) and srv_open()
-                if name in ('connectOk', 'connectRefused', 'connectTimeout'):
+                if name in ('connectOk', 'connectRefused', 'connectTimeout', 'connectOverflow'):
                     return bool(dial_parked())
                 if name == 'pierce':
                     # one incoming connection in flight at a time (the model's bound)
@@ -286,6 +286,9 @@ def _run_impl(case: dict) -> dict:
                     fn.release_connect(dial_parked()[0], 'ok')
                 elif name == 'connectRefused':
                     fn.release_connect(dial_parked()[0], 'refuse')
+                elif name == 'connectOverflow':
+                    # what open_connection raises for a port > 65535 (the wire type is uint32): not an OSError
+                    fn.release_connect(dial_parked()[0], 'overflow')
                 elif name == 'connectTimeout':
                     c = next(c for c in net.peer_connections if not c.incoming)
                     assert fire_timer(loop, c, 'connect')
@@ -479,6 +482,8 @@ def _run_impl(case: dict) -> dict:
 
 
 def _fmt_op(op: list) -> str:
+    if op[0] == 'connectOverflow':
+        return 'connectRefused'          # the model has one op for "open_connection raises"
     if op[0] == 'connectOk':
         return f'connectOk {int(bool(op[1]))}'
     if len(op) > 1:
@@ -536,7 +541,7 @@ def _offered(case: dict) -> list:
                     d, fin, who = 'ok', 'returned', 'direct'
                 else:
                     direct_dead()
-            elif name in ('connectRefused', 'connectTimeout') and d == 'opening':
+            elif name in ('connectRefused', 'connectTimeout', 'connectOverflow') and d == 'opening':
                 direct_dead()
             elif name == 'pierce' and i == 'waiting':
                 i, fin, who = 'ok', 'returned', 'indirect'
@@ -624,7 +629,7 @@ def _monitor(case: dict, impl: dict) -> list[Violation]:
                     indirect_ok = True
         if op is not None and pending_before:
             name = op[0]
-            if name in ('connectRefused', 'connectTimeout') or (name == 'connectOk' and not op[1]) or \
+            if name in ('connectRefused', 'connectTimeout', 'connectOverflow') or (name == 'connectOk' and not op[1]) or \
                     (name == 'addrReply' and op[1] != 'valid'):
                 direct_dead = True
             if name in ('cannotConnect', 'indirectTimeout') and prev is not None and prev['rw']:
@@ -727,7 +732,7 @@ def _monitor_back(case: dict, io: dict) -> list[Violation]:
 # --------------------------------------------------------------------------------------------
 
 DIRECT = {'ok': [['connectOk', 1]], 'refused': [['connectRefused']], 'timeout': [['connectTimeout']],
-          'init-fails': [['connectOk', 0]], 'none': []}
+          'init-fails': [['connectOk', 0]], 'overflow': [['connectOverflow']], 'none': []}
 INDIRECT = {'pierce': [['pierce']], 'cannot-connect': [['cannotConnect']], 'timeout': [['indirectTimeout']], 'none': []}
 LATE = [['pierce'], ['cannotConnect'], ['pierce'], ['connectOk', 1], ['indirectTimeout'], ['cancelRequest']]
 
@@ -866,8 +871,8 @@ def _gen_random_held(rng: random.Random) -> dict:
     labels = D_LABELS + A_LABELS + W_LABELS + M_LABELS
     hs = rng.sample(labels, rng.choice([1, 1, 2, 2, 3, 4, 6]))
     pool = ([['addrReply', 'valid']] * 3 + [['addrReply', 'noAddr'], ['addrReply', 'noPort']] + [['connectOk', 1]] * 4
-            + [['connectOk', 0], ['connectRefused'], ['connectTimeout']] * 2 + [['pierce']] * 4 + [['cannotConnect']] * 2
-            + [['indirectTimeout']] * 2 + [['cancelRequest']] * 3 + [['release', l] for l in hs] * 3
+            + [['connectOk', 0], ['connectRefused'], ['connectTimeout']] * 2 + [['connectOverflow']] + [['pierce']] * 4
+            + [['cannotConnect']] * 2 + [['indirectTimeout']] * 2 + [['cancelRequest']] * 3 + [['release', l] for l in hs] * 3
             + [['hold', rng.choice(labels)], ['unhold', rng.choice(hs)], ['drain']])
     ops = [list(rng.choice(pool)) for _ in range(rng.randint(3, 12))]
     if lookup and rng.random() < 0.7:
@@ -902,8 +907,8 @@ def _gen_random(rng: random.Random) -> dict:
     srv_fail = rng.random() < 0.15 and not (mode == 'race' and lookup)
     clear, obfs = rng.choice([(2234, 0), (0, 2235), (2234, 2235)])
     pool = ([['addrReply', 'valid']] * 4 + [['addrReply', 'noAddr'], ['addrReply', 'noPort']] + [['connectOk', 1]] * 4
-            + [['connectOk', 0], ['connectRefused'], ['connectTimeout']] * 2 + [['pierce']] * 4 + [['cannotConnect']] * 3
-            + [['indirectTimeout']] * 2 + [['cancelRequest']] * 2)
+            + [['connectOk', 0], ['connectRefused'], ['connectTimeout']] * 2 + [['connectOverflow']] + [['pierce']] * 4
+            + [['cannotConnect']] * 3 + [['indirectTimeout']] * 2 + [['cancelRequest']] * 2)
     ops = [list(rng.choice(pool)) for _ in range(rng.randint(3, 12))]
     return {'kind': 'random', 'mode': mode, 'lookup': int(lookup), 'srvFail': int(srv_fail), 'typ': rng.choice('PFD'),
             'prefer': int(rng.random() < 0.5), 'ports': [clear, obfs], 'ops': ops}
